@@ -473,6 +473,183 @@ def C04_dimexpr_family():
     return True, f"{len(exprs)} dimension expressions agree with JAX for B=1..9"
 
 
+def C02_table_family():
+    """every operator the optimizer tables accept as elementwise, placed between an inverse Transpose pair and
+    between a shape-restoring Reshape pair with ALL of its outputs observed: optimize_graph must not change any
+    output (value, shape) ONNX Runtime produces."""
+    import onnx
+    import onnx.defs as D
+    import onnx_ir as ir
+    import onnxruntime as ort
+    from onnx import helper, TensorProto, numpy_helper
+    from jax2onnx.converter import ir_optimizations as opt
+
+    def schema(op, opset):
+        best = None
+        for s_ in D.get_all_schemas_with_history():
+            if s_.name == op and s_.domain == "" and s_.since_version <= opset and (best is None or s_.since_version > best.since_version):
+                best = s_
+        return best
+
+    def run(model_proto, x):
+        so = ort.SessionOptions()
+        so.log_severity_level = 4
+        so.graph_optimization_level = ort.GraphOptimizationLevel.ORT_DISABLE_ALL
+        sess = ort.InferenceSession(model_proto.SerializeToString(), so, providers=["CPUExecutionProvider"])
+        return sess.run(None, {"x": x})
+
+    ops = sorted(set(opt.ALLOWED_ELEMWISE) | set(opt.ELEMENTWISE_UNARY_OPS) | set(opt.ELEMENTWISE_BINARY_OPS))
+    x = (np.random.default_rng(5).standard_normal((2, 3, 4)).astype(np.float32) + 2.0)
+    checked = 0
+    for op in ops:
+        for wrap in ("transpose", "reshape"):
+            opset = 21
+            sc = schema(op, opset)
+            if sc is None:
+                opset = 24
+                sc = schema(op, opset)
+            if sc is None:
+                continue
+            n_out = len(sc.outputs)
+            ins = ["a"]
+            inits = []
+            if op in ("Add", "Sub", "Mul", "Div", "Max", "Min", "Pow"):
+                inits.append(numpy_helper.from_array(np.asarray(1.5, dtype=np.float32), "k"))
+                ins.append("k")
+            if op == "CastLike":
+                inits.append(numpy_helper.from_array(np.asarray(0.0, dtype=np.float32), "k"))
+                ins.append("k")
+            attrs = {"to": TensorProto.FLOAT} if op == "Cast" else {}
+            outs = [f"o{i}" for i in range(n_out)]
+            data_in, is_bool = "x", op == "Not"
+            pre = []
+            if is_bool:
+                inits.append(numpy_helper.from_array(np.asarray(2.0, dtype=np.float32), "thr"))
+                pre = [helper.make_node("Greater", ["x", "thr"], ["xb"])]
+                data_in = "xb"
+            if wrap == "transpose":
+                nodes = pre + [helper.make_node("Transpose", [data_in], ["a"], perm=[0, 2, 1]), helper.make_node(op, ins, outs, **attrs),
+                               helper.make_node("Transpose", ["o0"], ["y"], perm=[0, 2, 1])]
+            else:
+                inits += [numpy_helper.from_array(np.asarray([6, 4], dtype=np.int64), "s1"), numpy_helper.from_array(np.asarray([2, 3, 4], dtype=np.int64), "s2")]
+                nodes = pre + [helper.make_node("Reshape", [data_in, "s1"], ["a"]), helper.make_node(op, ins, outs, **attrs),
+                               helper.make_node("Reshape", ["o0", "s2"], ["y"])]
+            out_infos = [helper.make_empty_tensor_value_info("y")] + [helper.make_empty_tensor_value_info(o) for o in outs[1:]]
+            g = helper.make_graph(nodes, "g", [helper.make_tensor_value_info("x", TensorProto.FLOAT, [2, 3, 4])], out_infos, initializer=inits)
+            m = helper.make_model(g, opset_imports=[helper.make_opsetid("", opset)])
+            m.ir_version = 10
+            try:
+                m = onnx.shape_inference.infer_shapes(m)
+                before = run(m, x)
+            except Exception:
+                continue  # ORT cannot run this operator here: inconclusive, not a failure
+            irm = ir.serde.deserialize_model(m)
+            try:
+                opt.optimize_graph(irm)
+            except Exception:
+                continue
+            m2 = ir.serde.serialize_model(irm)
+            try:
+                after = run(m2, x)
+            except Exception as e:
+                return False, f"{op} between a {wrap} pair: the optimized model no longer runs: {str(e)[:150]}"
+            checked += 1
+            names = [o.name for o in m.graph.output]
+            for nm, b, a_ in zip(names, before, after):
+                if b.shape != a_.shape or not np.array_equal(b, a_):
+                    return False, f"{op} between a {wrap} pair: output `{nm}` changes from shape {b.shape} to {a_.shape} after optimize_graph"
+    return True, f"{checked} (operator, wrapper) graphs unchanged by the optimizer"
+
+
+def _ops_newer_than_declared(model):
+    import onnx.defs as D
+    first = {}
+    for s_ in D.get_all_schemas_with_history():
+        if s_.domain == "":
+            first[s_.name] = min(first.get(s_.name, 10 ** 6), s_.since_version)
+    declared = {o.domain: o.version for o in model.opset_import}.get("", None)
+    bad = []
+
+    def walk(graph):
+        for n in graph.node:
+            if n.domain == "" and first.get(n.op_type, 0) > declared:
+                bad.append((n.op_type, first[n.op_type]))
+            for a in n.attribute:
+                if a.g.node:
+                    walk(a.g)
+                for g in a.graphs:
+                    walk(g)
+    walk(model.graph)
+    for f in model.functions:
+        fdecl = {o.domain: o.version for o in f.opset_import}.get("", declared)
+        for n in f.node:
+            if n.domain == "" and first.get(n.op_type, 0) > min(fdecl, declared):
+                bad.append((f"{n.op_type} (in function {f.name})", first[n.op_type]))
+    return declared, bad
+
+
+def _opset_case(fn, spec, opset, what):
+    try:
+        model = _export(fn, spec, opset=opset)
+    except Exception as e:
+        return True, f"{what} at opset {opset}: export raised {type(e).__name__} (explicit refusal)"
+    declared, bad = _ops_newer_than_declared(model)
+    if bad:
+        return False, f"{what} exported at opset {declared} contains {bad[0][0]}, which ONNX defines only from opset {bad[0][1]}"
+    return True, f"{what} at opset {opset}: every operator exists in the declared opset"
+
+
+def D10_cumprod_lax():
+    jax, jnp = _jax()
+    return _opset_case(lambda x: jax.lax.cumprod(x, axis=0), [(3, 4)], 23, "lax.cumprod")
+
+
+def D10_cumprod_jnp():
+    jax, jnp = _jax()
+    return _opset_case(lambda x: jnp.cumprod(x, axis=1), [(3, 4)], 23, "jnp.cumprod")
+
+
+def D10_bitcast():
+    jax, jnp = _jax()
+    return _opset_case(lambda x: jax.lax.bitcast_convert_type(x, jnp.int32), [(3, 4)], 23, "lax.bitcast_convert_type")
+
+
+def C11_ops_within_opset():
+    """components with opset-gated lowerings exported at every opset 21..24: nothing newer than declared"""
+    jax, jnp = _jax()
+    from flax import nnx
+    cases = [("jax.nn.silu", lambda x: jax.nn.silu(x), [(3, 4)]),
+             ("x * sigmoid(x)", lambda x: x * jax.nn.sigmoid(x), [(3, 4)])]
+    try:
+        norm = nnx.RMSNorm(4, rngs=nnx.Rngs(0))
+        cases.append(("nnx.RMSNorm", lambda x: norm(x), [(3, 4)]))
+    except Exception:
+        pass
+    for what, f, spec in cases:
+        for opset in (21, 22, 23, 24):
+            ok, detail = _opset_case(f, spec, opset, what)
+            if not ok:
+                return ok, detail
+    return True, f"{len(cases)} gated components x opsets 21..24 stay within the declared opset"
+
+
+def C11_function_body_opset():
+    """an opset-gated component inside an @onnx_function body at opsets 21/22/23"""
+    jax, jnp = _jax()
+    from witnesses import _fnmods
+    NormBlock, act = _fnmods.NormBlock, _fnmods.silu_act
+
+    blk = NormBlock()
+    n_exported = 0
+    for what, f in (("nnx.RMSNorm inside @onnx_function", lambda x: blk(x)), ("silu inside @onnx_function", lambda x: act(x))):
+        for opset in (21, 22, 23):
+            ok, detail = _opset_case(f, [(3, 4)], opset, what)
+            if not ok:
+                return ok, detail
+            n_exported += "export raised" not in detail
+    return True, f"function bodies are lowered at the declared opset ({n_exported} exports)"
+
+
 def C05_output_order_family():
     """results (a4d, b4d, c1d, d4d) under every ordered subset of outputs_as_nchw over the 4-D leaves:
     output k must be leaf k (NCHW-transposed iff flagged)."""
@@ -758,6 +935,9 @@ ALL = {
     "D16": D16_nchw_input_dtype_matches_plain,
     "C05_output_order_family": C05_output_order_family,
     "C04_dimexpr_family": C04_dimexpr_family,
+    "C02_table_family": C02_table_family,
+    "D10_cumprod_lax": D10_cumprod_lax, "D10_cumprod_jnp": D10_cumprod_jnp, "D10_bitcast": D10_bitcast,
+    "C11_ops_within_opset": C11_ops_within_opset, "C11_function_body_opset": C11_function_body_opset,
     "C16_reverse_scan_is_loud": C16_reverse_scan_is_loud, "C16_unbound_output_is_loud": C16_unbound_output_is_loud,
     "C12_nchw_symbolic_dims": C12_nchw_symbolic_dims,
 }
